@@ -176,7 +176,7 @@ def gen(rng, tier):
     # storms: many issuers, long op lists, a longer list to scan (the check-then-insert of a rank must be one step)
     nst = 16 if tier == "quick" else 300
     for _ in range(nst):
-        cases.append("P %d %d %d %d %d %d" % (rng.getrandbits(30), rng.choice([2, 4]), rng.choice([0, 2, 4]),
+        cases.append("P %d %d %d %d %d %d" % (rng.getrandbits(30), rng.choice([4, 8]), rng.choice([0, 2, 4]),
                                               rng.choice([4, 8]), 32, rng.choice([3, 6, 12])))
     stats["p_storm"] = nst
     return cases, stats
